@@ -71,7 +71,7 @@ func Check(c *Case) (res kit.Result) {
 		}
 		xs[i] = v.F
 	}
-	if c.Pad < 0 || c.Pad > 1<<20 || c.Fix < 0 || c.Fix > 9 || c.Ch < 0 || c.Ch > 64 {
+	if c.Pad < 0 || c.Pad > 1<<20 || c.Fix < 0 || c.Fix > convtab.MaxFix || c.Ch < 0 || c.Ch > 64 {
 		return kit.Result{}
 	}
 	if c.Pad > len(xs) {
@@ -170,7 +170,7 @@ func Gen(t *rapid.T) *Case {
 	e := Pairs[rapid.IntRange(0, len(Pairs)-1).Draw(t, "inst")]
 	c := &Case{S: e.S.Name, D: e.D.Name}
 	c.Pad = kit.GenPad(t)
-	c.Fix = rapid.IntRange(0, 9).Draw(t, "fix")
+	c.Fix = rapid.IntRange(0, convtab.MaxFix).Draw(t, "fix")
 	c.Ch = kit.GenNumCh(t, c.Pad)
 	n := rapid.IntRange(1, 16).Draw(t, "n")
 	is32 := e.S.Bits == 32
